@@ -62,6 +62,27 @@ def promptOf (j : Json) : Except String Prompt := do
 def jPrompt (p : Prompt) : Json :=
   jObj [("id", jStr p.id), ("messages", jArr (p.messages.map jMsg))]
 
+/-- a prompt record with its `messages_url` (`url`: string or null / absent) -/
+def promptUOf (j : Json) : Except String Prompt := do
+  let p ← promptOf j
+  let u ← match j.getObjVal? "url" with
+    | .ok Json.null => pure none
+    | .ok v => pure (some (← strOf v))
+    | .error _ => pure none
+  pure { p with messagesUrl := u }
+
+def jPromptU (p : Prompt) : Json :=
+  jObj [("id", jStr p.id), ("messages", jArr (p.messages.map jMsg)),
+        ("url", match p.messagesUrl with | some u => jStr u | none => Json.null)]
+
+def outcomeOf (j : Json) : Except String Outcome := do
+  let k ← (← j.getObjVal? "k").getStr?
+  match k with
+  | "ok" => pure (.ok (← getStrField j "url"))
+  | "enqueue_err" => pure .enqueueErr
+  | "serialize_err" => pure .serializeErr
+  | _ => throw s!"bad outcome {k}"
+
 def jPair (p : Nat × Nat) : Json := jArr [jNat p.1, jNat p.2]
 
 def handle (op : String) (j : Json) : Option (Except String Json) :=
@@ -98,6 +119,17 @@ def handle (op : String) (j : Json) : Option (Except String Json) :=
   | "rd_strip_prompts" => some do
       let ps ← (← getArrField j "prompts").toList.mapM promptOf
       pure (jObj [("prompts", jArr ((stripMessages ps).map jPrompt))])
+  | "rd_default_arm" => some do
+      -- the `Default` arm of apply_prompt_storage_mode on one prompt map (in map order), one
+      -- database state and one vector of per-session enqueue outcomes
+      let ps ← (← getArrField j "prompts").toList.mapM promptUOf
+      let sel ← verdictsOf j
+      let se ← getBoolField j "should_enqueue"
+      let dbo ← getBoolField j "db_opens"
+      let outs ← (← getArrField j "outs").toList.mapM outcomeOf
+      match applyStorageMode sel ⟨se, fun _ => ⟨dbo, outs⟩⟩ .default ps with
+      | some r => pure (jObj [("ok", jObj [("prompts", jArr (r.map jPromptU))])])
+      | none => pure (jObj [("err", "panic")])
   | _ => none
 
 end GitAi.Driver.RedactD
